@@ -345,17 +345,26 @@ func addNameCollision(t *rapid.T, c *core.Ctx, f *model.File) {
 // addSameLocalRefSibling: the main file and a sibling file (referenced as a whole)
 // both contain "allOf": [{"$ref": "#/$defs/Base"}, ...] with their OWN definition
 // Base, typed differently: a local reference must resolve inside its own document.
-func addSameLocalRefSibling(t *rapid.T, c *core.Ctx, f *model.File) *model.File {
+func addSameLocalRefSibling(t *rapid.T, c *core.Ctx, f *model.File, kinds_ ...model.Kind) *model.File {
+	compKind := model.KAllOf
+	if len(kinds_) > 0 {
+		compKind = kinds_[0]
+	}
 	kinds := rapid.Permutation([]model.Kind{model.KString, model.KInteger, model.KBoolean, model.KNumber}).Draw(t, "siblingkinds")
 	mk := func(k model.Kind, ak model.Kind, extra string) (*model.Node, *model.Node) {
 		base := &model.Node{Kind: model.KObject, Props: []model.Prop{
 			{Name: "id", Node: &model.Node{Kind: k}},
 			{Name: "tags", Node: &model.Node{Kind: model.KArray, Items: &model.Node{Kind: ak}}},
 		}, Required: rapid.SampledFrom([][]string{{"id"}, {"id"}, {"id", "tags"}, {"tags"}, {}}).Draw(t, "siblingreq"+extra)}
-		comp := &model.Node{Kind: model.KAllOf, Branches: []*model.Node{
-			{Kind: model.KRef, Ref: "#/$defs/Base", Target: base},
-			{Kind: model.KObject, Props: []model.Prop{{Name: extra, Node: &model.Node{Kind: model.KBoolean}}}},
-		}}
+		other := &model.Node{Kind: model.KObject, Props: []model.Prop{{Name: extra, Node: &model.Node{Kind: model.KBoolean}}}}
+		if compKind == model.KAnyOf {
+			// branches of an anyOf need rules of their own to tell them apart
+			if len(base.Required) == 0 {
+				base.Required = []string{"id"}
+			}
+			other.Required = []string{extra}
+		}
+		comp := &model.Node{Kind: compKind, Branches: []*model.Node{{Kind: model.KRef, Ref: "#/$defs/Base", Target: base}, other}}
 		return base, comp
 	}
 	baseA, compA := mk(kinds[0], kinds[1], "qa")
